@@ -69,6 +69,7 @@ type JobResult struct {
 	Solver       SolverStats
 	Wall         time.Duration
 	Steps        int
+	QueryPos     map[string]int
 }
 
 func newJobResult(j *Job) *JobResult {
@@ -117,6 +118,9 @@ func (r *JobResult) addViolation(v Violation) {
 // runJob explores all paths of one harness entry.
 func runJob(w *World, j *Job, solverKind string) (res *JobResult) {
 	res = newJobResult(j)
+	if profileQueries {
+		res.QueryPos = map[string]int{}
+	}
 	start := time.Now()
 	defer func() {
 		res.Wall = time.Since(start)
@@ -176,6 +180,11 @@ func runJob(w *World, j *Job, solverKind string) (res *JobResult) {
 		res.Ends[end.kind]++
 		switch end.kind {
 		case "done", "stop":
+			if ea, ok := s.ghost["expectAbort"].(TupleV); ok {
+				// the path returned normally: the abort condition must be false here
+				e.curInstr = nil
+				e.doAssertQuiet(s, e.ts.Not(ea[0].(*Term)), ea[1].(*Term).Str)
+			}
 			res.Paths++
 			res.Branches += s.branches
 			if len(res.Samples) < 3 {
@@ -183,6 +192,15 @@ func runJob(w *World, j *Job, solverKind string) (res *JobResult) {
 			}
 		case "infeasible":
 		case "panic", "abort", "deadlock":
+			if ea, ok := s.ghost["expectAbort"].(TupleV); ok && end.kind == "abort" {
+				// aborting is right iff the condition holds on this path
+				e.curInstr = nil
+				e.doAssertQuiet(s, ea[0].(*Term), ea[1].(*Term).Str+"(abort-only-then)")
+				res.cover(ea[1].(*Term).Str)
+				res.Paths++
+				res.Ends["abort-expected"]++
+				continue
+			}
 			res.Paths++
 			res.Branches += s.branches
 			label := end.kind
@@ -252,7 +270,11 @@ func (e *Engine) sample(st *State) map[string]interface{} {
 		case SBool:
 			in[r.Name] = cv.B
 		case SBV:
-			in[r.Name] = signed(cv.BV, cv.S.W)
+			if r.Unsigned {
+				in[r.Name] = cv.BV
+			} else {
+				in[r.Name] = signed(cv.BV, cv.S.W)
+			}
 		default:
 			in[r.Name] = cv.Str
 		}
@@ -399,6 +421,7 @@ func finish(w *World, verifDir string, spec *PropSpec, cr *CheckResult, seed int
 	agg := newJobResult(nil)
 	var inconclusive []string
 	var viols []*Violation
+	otherProps := map[string]int{}
 	perJob := []map[string]interface{}{}
 	var solver SolverStats
 	for _, jr := range cr.Jobs {
@@ -438,6 +461,11 @@ func finish(w *World, verifDir string, spec *PropSpec, cr *CheckResult, seed int
 			inconclusive = append(inconclusive, jr.Job.Func+fmt.Sprint(jr.Job.Args)+": "+s)
 		}
 		for i := range jr.Violations {
+			// an assertion labelled with another property's id belongs to that property's check
+			if l := jr.Violations[i].Label; len(l) > 4 && l[0] == 'C' && l[3] == '.' && l[:3] != spec.ID {
+				otherProps[l[:3]]++
+				continue
+			}
 			viols = append(viols, &jr.Violations[i])
 		}
 		if len(agg.Samples) < 6 {
@@ -591,6 +619,7 @@ func finish(w *World, verifDir string, spec *PropSpec, cr *CheckResult, seed int
 			"counterexamples":               vout,
 			"load_and_ssa_build_s":          cr.LoadTime.Seconds(),
 			"harness_files":                 w.harness,
+			"failed_assertions_of_other_properties_ignored_here": otherProps,
 		},
 		"assumptions": spec.Assumptions,
 	}
